@@ -235,10 +235,14 @@ func checkAppendGuardOn(w *World, c *Check, pr *prover, name string, app *ssa.Fu
 			}
 		}
 	}
-	if n == 0 && depth < 2 {
+	// helpers that are handed the list and grow it themselves (appendIfMissing(&o.Items, ob), a batch variant of Append)
+	// are judged by the same rule, whether or not this function appends as well
+	delegated := false
+	if depth < 2 {
+		seenH := map[*ssa.Function]bool{}
 		for _, call := range callsIn(app) {
 			cal := call.Common().StaticCallee()
-			if cal == nil || !w.InPkg(cal) || cal == app || cal.Blocks == nil || cal.Name() == "Contains" {
+			if cal == nil || !w.InPkg(cal) || cal == app || cal.Blocks == nil || cal.Name() == "Contains" || seenH[cal] {
 				continue
 			}
 			for ai, a := range call.Common().Args {
@@ -252,16 +256,27 @@ func checkAppendGuardOn(w *World, c *Check, pr *prover, name string, app *ssa.Fu
 						isList = true
 					}
 				}
-				if isList {
-					if _, isPtr := types.Unalias(cal.Params[ai].Type()).Underlying().(*types.Pointer); isPtr {
-						checkAppendGuardOn(w, c, pr, name, cal, cal.Params[ai], depth+1)
-						return
-					}
+				if !isList {
+					continue
 				}
+				if _, isPtr := types.Unalias(cal.Params[ai].Type()).Underlying().(*types.Pointer); !isPtr {
+					continue
+				}
+				if !growsThrough(pr, cal, cal.Params[ai]) {
+					continue
+				}
+				seenH[cal] = true
+				delegated = true
+				hname := name
+				if n > 0 {
+					hname = name + "→" + cal.Name()
+				}
+				checkAppendGuardOn(w, c, pr, hname, cal, cal.Params[ai], depth+1)
+				break
 			}
 		}
 	}
-	if n == 0 {
+	if n == 0 && !delegated {
 		c.bad("C13.guard", name+".Append", w.FuncPos(app), "no append to the receiver's list found in Append")
 	}
 }
@@ -523,6 +538,54 @@ func checkC14(w *World, c *Check, tier string) {
 	}
 	clos := w.Reach([]*ssa.Function{eq}, nil)
 	c.stat("closure_functions", len(clos))
+	// (parse) the conversion the comparison relies on refuses nothing but the empty IRI (and what net/url refuses): an
+	// extra refusal — a length limit, a scheme allow-list — sends the refused IRIs down the plain string comparison,
+	// where trailing slashes, dot segments and query order are no longer ignored
+	if um := w.Method("IRI", "URL"); um != nil && um.Blocks != nil {
+		nRef := 0
+		for _, rb := range returnBlocks(um) {
+			ret := rb.Instrs[len(rb.Instrs)-1].(*ssa.Return)
+			if len(ret.Results) != 2 {
+				continue
+			}
+			ev := unwrap(ret.Results[1])
+			call, isCall := ev.(*ssa.Call)
+			if !isCall {
+				continue // nil, or the parser's own error handed on
+			}
+			if cal := call.Common().StaticCallee(); cal != nil && cal.Object() != nil && cal.Object().Pkg() != nil && cal.Object().Pkg().Path() == "net/url" {
+				continue
+			}
+			nRef++
+			bad := ""
+			for _, g := range rawGuards(rb) {
+				bo, isBin := g.cond.(*ssa.BinOp)
+				if !isBin {
+					bad = shortVal(g.cond)
+					continue
+				}
+				var subj ssa.Value
+				var k *ssa.Const
+				if kk, isC := bo.Y.(*ssa.Const); isC {
+					subj, k = bo.X, kk
+				} else if kk, isC := bo.X.(*ssa.Const); isC {
+					subj, k = bo.Y, kk
+				}
+				if inner, isLen := lenOperand(subj); isLen {
+					subj = inner
+				}
+				if k == nil || !isZeroConst(k.Value) || unwrap(subj) != ssa.Value(um.Params[0]) {
+					bad = shortVal(g.cond)
+				}
+			}
+			key := fmt.Sprintf("IRI.URL:refusal#%d", nRef)
+			if bad != "" {
+				c.bad("C14.fold", key, w.InstrPos(ret), fmt.Sprintf("IRI.URL() refuses an IRI under the condition %s, which is not the emptiness test: for the IRIs it refuses the comparison falls back to the plain case-insensitive string comparison and stops ignoring a trailing slash, dot segments and the order of query parameters", bad))
+			} else {
+				c.ok("C14.fold", key, w.InstrPos(ret), "refuses the empty IRI only")
+			}
+		}
+	}
 	nreads := 0
 	for _, f := range clos {
 		for _, b := range f.Blocks {
@@ -536,6 +599,21 @@ func checkC14(w *World, c *Check, tier string) {
 					continue
 				}
 				fname := fieldNameOf(fa.X.Type(), fa.Field)
+				// the parsed operands are compared as they are: nothing in the closure of the comparison writes a component
+				// of a parsed URL (dropping a "default" port, lower-casing in place, cutting the path): such a rewrite is
+				// a second notion of equivalence that the component rules below never see
+				if fa.Referrers() != nil {
+					stored := false
+					for _, r := range *fa.Referrers() {
+						if st, isSt := r.(*ssa.Store); isSt && st.Addr == ssa.Value(fa) {
+							stored = true
+							c.bad("C14.fold", fmt.Sprintf("%s:writes:URL.%s", funcName(f), fname), w.InstrPos(st), fmt.Sprintf("%s rewrites URL.%s of a parsed operand before comparing (%s): IRIs that differ in what the rewrite removes compare equal — and, applied per operand, the relation stops being transitive across schemes", funcName(f), fname, shortVal(st.Val)))
+						}
+					}
+					if stored {
+						continue
+					}
+				}
 				nreads++
 				key := fmt.Sprintf("%s:%s@%s", funcName(f), fname, w.InstrPos(fa))
 				key = fmt.Sprintf("%s:%s#%d", funcName(f), fname, nreads)
@@ -1180,6 +1258,9 @@ func checkC17(w *World, c *Check, tier string) {
 		c.bad("C17.form", "anchor:ItemOrderTimestamp", "-", "comparator not found or does not take two items")
 		return
 	}
+	// the object view the comparator reads the instants through: no assertion in its closure goes untested (a view of
+	// nothing has zero instants and ranks last whatever the value holds)
+	checkAssertionsTested(w, c, "C17.view", w.Reach([]*ssa.Function{f}, nil))
 	// the After/Before call whose result is returned
 	var final *ssa.Call
 	for _, rb := range returnBlocks(f) {
@@ -1708,4 +1789,30 @@ func rewritesPath(fa *ssa.FieldAddr) string {
 	}
 	visit(fa, 0)
 	return found
+}
+
+// growsThrough: f stores append(…) into the list its parameter p points to (or into a list field of what p points to).
+func growsThrough(pr *prover, f *ssa.Function, p *ssa.Parameter) bool {
+	for _, b := range f.Blocks {
+		for _, in := range b.Instrs {
+			st, ok := in.(*ssa.Store)
+			if !ok {
+				continue
+			}
+			call, ok := st.Val.(*ssa.Call)
+			if !ok {
+				continue
+			}
+			if bi, ok := call.Common().Value.(*ssa.Builtin); !ok || bi.Name() != "append" {
+				continue
+			}
+			if st.Addr == ssa.Value(p) {
+				return true
+			}
+			if fp, ok := pr.fieldOf(st.Addr); ok && len(fp.Idx) == 1 && fp.Root == pr.canonicalRoot(p) {
+				return true
+			}
+		}
+	}
+	return false
 }
